@@ -29,7 +29,7 @@ def strategy(tier):
                                force_history=True, p_orth_root=0.15, allow_final=False,
                                n_events=3, min_tr=6, max_tr=16, p_eventless=0.1, p_aguard=0.15))
         ops = draw(gen.histories(spec, 10, 30, p_all=0.4, p_none=0.05))
-        return {'spec': spec, 'ops': ops}
+        return {'spec': spec, 'ops': ops, 'faults': draw(gen.faults(ops))}
     return cases()
 
 
